@@ -997,6 +997,9 @@ def _dot_coo_ndarray_type(dt1, dt2):
             The output shape.
         """
         out = np.zeros(out_shape, dtype=dtr)
+        if out_shape[1] == 0:
+            # no output column: the loop below would never advance didx1
+            return out
         didx1 = 0
 
         while didx1 < len(data1):
@@ -1045,6 +1048,10 @@ def _dot_coo_ndarray_type_sparse(dt1, dt2):
         # coords1.shape = (2, len(data1))
         # coords1[0, :] = rows, sorted
         # coords1[1, :] = columns
+
+        if out_shape[1] == 0:
+            # no output column: the loop below would never advance didx1
+            return np.empty((2, 0), dtype=np.intp), np.empty((0,), dtype=dtr)
 
         didx1 = 0
         while didx1 < len(data1):
